@@ -690,7 +690,7 @@ impl Formatter {
       if self.html {
         src.push_str(&format!("<span class=\"mech-code\">{}{}</span>", c, formatted_comment));
       } else {
-        src.push_str(&format!("{}{}\n", c, formatted_comment));
+        src.push_str(&format!("{}{}{}\n", c, if formatted_comment.is_empty() { "" } else { " " }, formatted_comment));
       }
     }
     let intrp_id = self.interpreter_id;
@@ -1447,7 +1447,7 @@ impl Formatter {
     if self.html {
       format!("<span class=\"mech-comment\"><span class=\"mech-comment-sigil\">--</span>{}</span>", comment_text)
     } else {
-      format!("{}\n",comment_text)
+      format!("--{}\n",comment_text)
     }
   }
 
@@ -1550,7 +1550,7 @@ impl Formatter {
       if self.html {
         src.push_str(&format!("<span class=\"mech-code\">{}{}</span>", c, formatted_comment));
       } else {
-        src.push_str(&format!("{}{}\n", c, formatted_comment));
+        src.push_str(&format!("{}{}{}\n", c, if formatted_comment.is_empty() { "" } else { " " }, formatted_comment));
       }
     }
     if self.html {
